@@ -11,11 +11,13 @@
     task's commands began and ended successfully — or failed while marked allow_failure — in this history, each exactly
     once (proofs/VerdictProps.v: an invariant over System.reach relating stage statuses, pending notifications, the
     recorded error, the cancel causes and the ghost log).
+    Fail-fast is proved as a decision rule (C08_failfast_requests_cancel: the failure notification requests the job's cancel
+    iff the pipeline does not continue after failures; delivery and refusal of later runs: C04).
     NOT proved (decided by the monitor on every executed history and by the step-exact comparison of all task / job
-    fields): fail-fast tells the running tasks; with continue_running_tasks_after_failure independent tasks complete. *)
+    fields): with continue_running_tasks_after_failure all independent tasks run to completion (liveness). *)
 From stdpp Require Import list.
 From Coq Require Import ZArith.
-From PV Require Import System Runner proofs.SchedProps proofs.OnceProps proofs.StageProps proofs.SystemProps proofs.VerdictProps.
+From PV Require Import System Runner proofs.SchedProps proofs.OnceProps proofs.StageProps proofs.SystemProps proofs.VerdictProps proofs.FailFastProps.
 
 (** over every history: the step that completes a job leaves it completed with no task reported running *)
 Theorem C08_completed_no_task_running : ∀ s id s' r,
@@ -38,6 +40,19 @@ Theorem C08_reported_verdict_sound : ∀ s id s' r j j',
   (j_canceled j' = false → j_lasterr j' = None →
    ∀ t, t ∈ j_tasks j' → ran_ok (st_ghost s) id (jt_name t) ∧ began (st_ghost s) id (jt_name t) = 1%nat).
 Proof. exact reported_verdict_sound. Qed.
+
+(** fail-fast as a decision rule: the task-change notification of a failed task (not a cancellation) of a running job requests
+    the cancel of the job (one more pending Scheduler.Cancel, which tells the running tasks: C04) exactly when the pipeline
+    does not continue after failures; with continue_running_tasks_after_failure nothing is canceled *)
+Theorem C08_failfast_requests_cancel : ∀ s id n t j t0 d,
+  st_jobs s !! id = Some j → j_removed j = false → find_task j n = Some t0 →
+  tn_err t ≠ Some ECanceled → tn_errored t = true →
+  lookup_def (st_defs s) (j_pipe j) = Some d →
+  j_canceled j = false → j_completed j = false → is_Some (j_start j) → is_Some (j_sched j) →
+  ∃ j', st_jobs (handle_task_change s id n t) !! id = Some j' ∧ j_sched j' = j_sched j ∧
+        j_cancels j' = (if pd_continue d then j_cancels j else S (j_cancels j)) ∧
+        (∃ t', find_task j' n = Some t' ∧ jt_errored t' = true).
+Proof. exact failfast_requests_cancel. Qed.
 
 Theorem C08_dependents_never_launched_partial : ∀ sc j n d,
   d ∈ task_deps j n →
@@ -81,6 +96,7 @@ Example C08_ex_verdict_premises :
     = Some (false, false, Some None, [0; 1]%nat).
 Proof. split; [apply reach_exec, reach_init|]. split; vm_compute; [by eexists|done]. Qed.
 
+Print Assumptions C08_failfast_requests_cancel.
 Print Assumptions C08_verdict_sound.
 Print Assumptions C08_reported_verdict_sound.
 Print Assumptions C08_completed_no_task_running.
